@@ -194,6 +194,58 @@ func (w *World) PreludeFor(pkg string) (string, []*Oblig, error) {
 		fmt.Fprintf(&body, "(define-fun midx%s ((s Str)) Int %s)\n", V, e)
 		preludeSorts["midx"+V] = SInt
 	}
+	// header, metric names, first missing mandatory metric
+	fmt.Fprintf(&body, "(define-fun HDRLEN%s () Int %d)\n", V, len(spec.Header))
+	{
+		cs := []string{fmt.Sprintf("(>= (s.len v) %d)", len(spec.Header))}
+		for i := 0; i < len(spec.Header); i++ {
+			cs = append(cs, fmt.Sprintf("(= (select (s.arr v) (+ (s.off v) %d)) #x%02x)", i, spec.Header[i]))
+		}
+		fmt.Fprintf(&body, "(define-fun hasHeader%s ((v Str)) Bool (and %s))\n", V, strings.Join(cs, " "))
+		preludeSorts["hasHeader"+V] = SBool
+		e := smtStrLit("")
+		for i := n - 1; i >= 0; i-- {
+			e = fmt.Sprintf("(ite (= m %d) %s %s)", i, smtStrLit(spec.Metrics[i].Name), e)
+		}
+		fmt.Fprintf(&body, "(define-fun vname%s ((m Int)) Str %s)\n", V, e)
+		preludeSorts["vname"+V] = SStr
+		fm := "(- 1)"
+		for i := n - 1; i >= 0; i-- {
+			if spec.Metrics[i].Mandatory {
+				fm = fmt.Sprintf("(ite (not (select seen %d)) %d %s)", i, i, fm)
+			}
+		}
+		fmt.Fprintf(&body, "(define-fun firstMissing%s ((seen (Array Int Bool))) Int %s)\n", V, fm)
+		preludeSorts["firstMissing"+V] = SInt
+	}
+	// group offsets in the flat metric order and number of mandatory metrics
+	{
+		off := 0
+		e := fmt.Sprintf("%d", n)
+		var offs []int
+		for _, g := range spec.GOrder {
+			offs = append(offs, off)
+			off += len(spec.Groups[g])
+		}
+		for gi := len(offs) - 1; gi >= 0; gi-- {
+			e = fmt.Sprintf("(ite (= g %d) %d %s)", gi, offs[gi], e)
+		}
+		fmt.Fprintf(&body, "(define-fun goff%s ((g Int)) Int %s)\n", V, e)
+		sz := "0"
+		for gi := len(spec.GOrder) - 1; gi >= 0; gi-- {
+			sz = fmt.Sprintf("(ite (= g %d) %d %s)", gi, len(spec.Groups[spec.GOrder[gi]]), sz)
+		}
+		fmt.Fprintf(&body, "(define-fun gsize%s ((g Int)) Int %s)\n", V, sz)
+		fmt.Fprintf(&body, "(define-fun NGROUPS%s () Int %d)\n", V, len(spec.GOrder))
+		nm := 0
+		for _, m := range spec.Metrics {
+			if m.Mandatory {
+				nm++
+			}
+		}
+		fmt.Fprintf(&body, "(define-fun NMAND%s () Int %d)\n", V, nm)
+		preludeSorts["goff"+V], preludeSorts["gsize"+V], preludeSorts["NGROUPS"+V], preludeSorts["NMAND"+V] = SInt, SInt, SInt, SInt
+	}
 	// mandatory
 	{
 		var cs []string
@@ -363,6 +415,15 @@ func (w *World) PreludeFor(pkg string) (string, []*Oblig, error) {
 			obl = append(obl, &Oblig{Name: fmt.Sprintf("gocvss%s/repr/modified_codes_align_with_base/%s", pkg, md[0]), Kind: "repr", Cond: okT})
 			fmt.Fprintf(&body, "(define-fun eff%s_%s ((c %s)) BV8 (ite (= (f%s_%s c) #x00) (f%s_%s c) (bvsub (f%s_%s c) #x01)))\n", V, md[1], T, V, md[0], V, md[1], V, md[0])
 			preludeSorts[fmt.Sprintf("eff%s_%s", V, md[1])] = SBV8
+		}
+		// fields as an array indexed by metric position
+		{
+			e := "((as const (Array Int (_ BitVec 8))) #x00)"
+			for i, m := range spec.Metrics {
+				e = fmt.Sprintf("(store %s %d (f%s_%s c))", e, i, V, m.Name)
+			}
+			fmt.Fprintf(&body, "(define-fun valsarr%s ((c %s)) (Array Int (_ BitVec 8)) %s)\n", V, T, e)
+			preludeSorts["valsarr"+V] = SArrB
 		}
 		// view equality
 		{
